@@ -811,7 +811,8 @@ def handleZCombine (inter store : Bool) (_c : Ctx) (cmd : List Bytes) : Prog Res
   let readKeys := match (cmd.drop 1).findIdx? isModifierTok with
     | none => cmd.drop 2
     | some i => (cmd.take (i + 1)).drop 2
-  let cmd' := if store then cmd.filter fun t => t != dest else cmd
+  -- the STORE forms delete every *argument* equal to the destination (the command word stays) before parsing
+  let cmd' := if store then cmd.take 1 ++ (cmd.drop 1).filter fun t => t != dest else cmd
   if inter && store then
     .call (.keysExist readKeys) fun (ex : List Bool) =>
     match extractKWA cmd' with
